@@ -42,6 +42,15 @@ def run(chk, repo: Repo):
     _r4(chk, repo)
     _r5(chk, repo)
     _r6(chk, repo)
+    chk.rule("C04-R7", "Gram orientation: every product of a Gaussian square root with its own transpose follows precision = sqrtprec.T @ sqrtprec, "
+                       "covariance = sqrtcov @ sqrtcov.T (other orientation only into determinant / rank / eigenvalue sinks)", floor=10)
+    chk.rule("C04-R8", "diagonal fast paths of the Gaussian helpers are selected by exact structural tests, never by a tolerance comparator", floor=4)
+    from ..gram import gram_orientation, exact_shortcuts
+    gram_orientation(chk, repo, "C04-R7")
+    exact_shortcuts(chk, repo, "C04-R8", only_methods=False)
+    chk.rule("C04-R9", "Lognormal evaluates through an inner Gaussian mirror: each mirrored parameter is refreshed whenever SOME entry differs "
+                       "(refresh-if must be equivalent to `exists i: mirror[i] != parameter[i]`)", floor=2)
+    _r9(chk, repo)
 
 
 def _r1(chk, repo):
@@ -328,3 +337,81 @@ def _r6(chk, repo):
         chk.add("C04-R6", f"{ci.qual}.logpdf", not problems, site(repo, fn), "one aggregate over the broadcast per-component log-density", "; ".join(problems), fn)
     if n < 6:
         raise AnchorError(f"{n} product-form log-densities found, 6 confirmed by hand")
+
+
+# ------------------------------------------------------------------------------------------------ R9
+def _refresh_meaning(test: ast.expr):
+    """(exists_diff: bool, A, B) for the recognised comparison forms, None if the form is unknown."""
+    neg = False
+    e = test
+    while isinstance(e, ast.UnaryOp) and isinstance(e.op, ast.Not):
+        neg = not neg
+        e = e.operand
+    if isinstance(e, ast.Call) and (call_name(e) or "").rsplit(".", 1)[-1] in ("all", "any") and len(e.args) == 1:
+        q = (call_name(e) or "").rsplit(".", 1)[-1]
+        c = e.args[0]
+        if isinstance(c, ast.Compare) and len(c.ops) == 1 and isinstance(c.ops[0], (ast.Eq, ast.NotEq)):
+            rel_ne = isinstance(c.ops[0], ast.NotEq)
+            # truth of the test as a statement about the entries
+            #   any(!=) -> exists diff ; all(==) -> no diff ; all(!=) -> all differ ; any(==) -> some equal
+            if q == "any" and rel_ne:
+                meaning = "exists-diff"
+            elif q == "all" and not rel_ne:
+                meaning = "no-diff"
+            elif q == "all" and rel_ne:
+                meaning = "all-differ"
+            else:
+                meaning = "some-equal"
+            if neg:
+                meaning = {"exists-diff": "no-diff", "no-diff": "exists-diff", "all-differ": "some-equal", "some-equal": "all-differ"}[meaning]
+            return meaning, c.left, c.comparators[0]
+    if isinstance(e, ast.Call) and (call_name(e) or "").rsplit(".", 1)[-1] == "array_equal" and len(e.args) == 2:
+        return ("exists-diff" if neg else "no-diff"), e.args[0], e.args[1]
+    return None
+
+
+def _r9(chk, repo):
+    LN = "cuqi/distribution/_lognormal.py"
+    ci = repo.cls(f"{LN}:Lognormal")
+    p = ci.props.get("_normal")
+    if p is None or p.getter is None:
+        raise AnchorError("Lognormal._normal getter not found")
+    fn = p.getter
+    g = CFG(fn)
+    rets = g.returns()
+    if len(rets) != 1 or path_of(rets[0].ast.value) is None:
+        raise AnchorError("Lognormal._normal: single `return self.<mirror>` expected")
+    mirror = path_of(rets[0].ast.value)
+    # which evaluation entry points go through the mirror
+    users = [name for kind, name, f in ci.all_functions() if kind == "method" and any(path_of(a) == "self._normal" for a in ast.walk(f))]
+    if len(users) < 3:
+        raise AnchorError("Lognormal: evaluation methods no longer go through self._normal")
+    ga = repo.cls(f"{GA}:Gaussian")
+    init = repo.method(ci, "__init__")[1]
+    ctor = [c for c in ast.walk(init) if isinstance(c, ast.Call) and call_name(c) == "Gaussian"]
+    if len(ctor) != 1:
+        raise AnchorError("Lognormal.__init__: inner Gaussian construction not found")
+    mirrored = [path_of(a).split(".", 1)[1] for a in ctor[0].args if (path_of(a) or "").startswith("self.")]
+    for f in mirrored:
+        assigns = [n for n in g.nodes if n.kind == "stmt" and isinstance(n.ast, ast.Assign) and path_of(n.ast.targets[0]) == f"{mirror}.{f}"
+                   and path_of(n.ast.value) == f"self.{f}"]
+        if not assigns:
+            chk.fail("C04-R9", f"{ci.qual}.@_normal/{f}", site(repo, fn), f"the inner Gaussian's `{f}` is never refreshed from self.{f}: after `X.{f} = v` "
+                     f"logpdf/cdf/sample keep using the old value", fn)
+            continue
+        a = assigns[0]
+        guards = g.guards_of(a)
+        problems = []
+        for t, label in guards:
+            m = _refresh_meaning(t.ast)
+            if m is None:
+                raise AnchorError(f"Lognormal._normal: refresh guard `{unparse(t.ast)}` has an unrecognised form")
+            meaning, A, B = m
+            if {path_of(A), path_of(B)} != {f"{mirror}.{f}", f"self.{f}"}:
+                problems.append(f"guard `{unparse(t.ast)}` does not compare the mirror's `{f}` with self.{f}")
+                continue
+            taken = meaning if label == "T" else {"exists-diff": "no-diff", "no-diff": "exists-diff", "all-differ": "some-equal", "some-equal": "all-differ"}[meaning]
+            if taken != "exists-diff":
+                problems.append(f"`{unparse(t.ast)}` refreshes only when {taken.replace('-', ' ')}: a new value that shares an entry with the old one "
+                                f"(a partial update, another diagonal matrix) leaves the inner Gaussian stale")
+        chk.add("C04-R9", f"{ci.qual}.@_normal/{f}", not problems, site(repo, a.ast), f"refreshed whenever some entry of `{f}` differs", "; ".join(problems), a.ast)
